@@ -24,11 +24,15 @@ VARIABLES sl,      \* the chain contains a worm mating flagged self-locking (con
           spd,     \* "start": sign of the initial speed; "inst": sign of the recorded motor speed
           acc,     \* sign of the recorded acceleration
           moved,   \* did the position change between the previous and the newest instant
-          prevLk, inForce   \* history variables: lock bit before, and duty-cycle sign read by, the newest decision
-avars == <<sl, kind, lk, pwm, tq, spd, acc, moved, prevLk, inForce>>
+          prevLk, inForce,  \* history variables: lock bit before, and duty-cycle sign read by, the newest decision
+          edited,  \* the user re-indexed the output (set another speed) since the newest instant was recorded: `spd' is then the
+                   \* LIVE speed the next step starts from, no longer the recorded one
+          prevEdited        \* history variable: was the newest instant integrated from a state the user had edited
+avars == <<sl, kind, lk, pwm, tq, spd, acc, moved, prevLk, inForce, edited, prevEdited>>
 
 AInit == /\ sl \in BOOLEAN /\ kind = "start" /\ lk = FALSE /\ pwm \in Signs /\ tq = SNull
          /\ spd \in Signs /\ acc = "0" /\ moved = FALSE /\ prevLk = FALSE /\ inForce = "0"
+         /\ edited = FALSE /\ prevEdited = FALSE
 
 \* one computed instant: w = sign of the advanced motor speed, then the environment's choices for this instant
 Instant(w, p, t, a) ==
@@ -40,6 +44,7 @@ Instant(w, p, t, a) ==
   /\ moved' = (kind = "inst" /\ RSign(w) # 0)
   /\ pwm' = p /\ tq' = t
   /\ prevLk' = lk /\ inForce' = pwm
+  /\ edited' = FALSE /\ prevEdited' = edited
   /\ UNCHANGED sl
 
 \* the advanced speed w = spd + acc dt : any sign, except that 0 + 0 dt = 0 and equal signs cannot cancel
@@ -50,15 +55,20 @@ Later == kind = "inst" /\ \E w \in Advanced, p \in Signs, t \in Signs, a \in Sig
 \* duty cycle and net torque are the FIRST RECORDED ones (any sign), the initial speed is whatever the user re-applies
 Fresh == /\ kind = "inst" /\ kind' = "start" /\ lk' = FALSE
          /\ pwm' \in Signs /\ tq' \in Signs /\ spd' \in Signs /\ acc' = "0"       \* (the restored acceleration is not read by instant 0)
-         /\ moved' = FALSE /\ prevLk' = FALSE /\ inForce' = "0" /\ UNCHANGED sl
-ANext == First \/ Later \/ Fresh
+         /\ moved' = FALSE /\ prevLk' = FALSE /\ inForce' = "0" /\ edited' = FALSE /\ prevEdited' = FALSE /\ UNCHANGED sl
+\* between two calls the USER may assign another duty cycle to the motor, or re-index the output (another position / speed); the
+\* next decision reads what the user left
+UserPwm == /\ pwm' \in Signs \ {pwm} /\ UNCHANGED <<sl, kind, lk, tq, spd, acc, moved, prevLk, inForce, edited, prevEdited>>
+UserSpd == /\ spd' \in Signs /\ edited' = TRUE /\ UNCHANGED <<sl, kind, lk, pwm, tq, acc, moved, prevLk, inForce, prevEdited>>
+ANext == First \/ Later \/ Fresh \/ UserPwm \/ UserSpd
 ASpec == AInit /\ [][ANext]_avars
 
 \* C13 as stated: the recorded motor speed never has the sign opposite to the duty cycle in force; zero duty => zero speed
-SafeSign == (sl /\ kind = "inst") => SignSafe(inForce, spd)
+SafeSign == (sl /\ kind = "inst" /\ ~edited) => SignSafe(inForce, spd)
 \* while held: speed and acceleration zero; between two held instants the position does not move
-HeldStill == (kind = "inst" /\ lk) => spd = "0" /\ acc = "0"
-HeldPos == (kind = "inst" /\ prevLk /\ lk) => ~moved
+HeldStill == (kind = "inst" /\ lk /\ ~edited) => spd = "0" /\ acc = "0"
+\* (unless the user gave the held output a speed between the two: it then moves by that speed x dt before it is clamped again)
+HeldPos == (kind = "inst" /\ prevLk /\ lk /\ ~prevEdited) => ~moved
 \* motion resumes only when the motor's net torque points in the commanded direction
 ResumeOnlyWhenDriven == [][ (kind = "inst" /\ kind' = "inst" /\ lk /\ ~lk') => (tq # SNull /\ RSign(tq) # 0 /\ RSign(tq) = RSign(pwm)) ]_avars
 \* a powertrain without a self-locking mating is never clamped
